@@ -195,9 +195,8 @@ class WrappedField:
 
     @cached_property
     def is_iterable(self):
-        return self.is_one_to_many_relationship and hasattr(
-            self.container_type, "__iter__"
-        )
+        # a container of builtins (e.g., List[int]) is as iterable as a container of classes.
+        return self.is_container and hasattr(self.container_type, "__iter__")
 
     @cached_property
     def type_endpoint(self) -> Type:
